@@ -1,12 +1,16 @@
 package main
 
 import (
+	"github.com/jamf/regatta/regattaserver"
 	"github.com/jamf/regatta/storage/cluster"
 	"github.com/jamf/regatta/storage/kv"
+	"github.com/jamf/regatta/storage/table"
 )
 
 func collectMoreConstants() {
 	addN("cluster_noLeader", cluster.VerifNoLeader, "cluster.noLeader")
+	addN("table_MaxValueLen", table.MaxValueLen, "table.MaxValueLen")
+	addN("server_DefaultMaxGRPCSize", regattaserver.DefaultMaxGRPCSize, "regattaserver.DefaultMaxGRPCSize")
 	addN("kv_ResultCodeFailure", kv.ResultCodeFailure, "kv.ResultCodeFailure")
 	addN("kv_ResultCodeSuccess", kv.ResultCodeSuccess, "kv.ResultCodeSuccess")
 	addN("kv_ResultCodeVersionMismatch", kv.ResultCodeVersionMismatch, "kv.ResultCodeVersionMismatch")
